@@ -493,17 +493,29 @@ class SymInt:
     __hash__ = None
 
     def concretize(self, lo=None, hi=None):
-        """Fork over the feasible values (explicit concretisation)."""
+        """Fork over the feasible values (explicit concretisation): ask the solver for a value, branch on it."""
         t = z3.simplify(self.t)
         if z3.is_int_value(t):
             return t.as_long()
         ctx = cur()
-        lo = -64 if lo is None else lo
-        hi = 64 if hi is None else hi
-        for k in range(lo, hi + 1):
-            if ctx.branch(self.t == k):
-                return k
-        unsupported('SymInt outside concretisation range')
+        for _ in range(256):
+            if ctx.pos < len(ctx.prefix):
+                # replaying a recorded decision: recover the value tried at this point deterministically
+                pass
+            st_, m = ctx.check([], 10000) if True else (None, None)
+            ctx.stats.final_queries -= 1
+            if st_ == 'sat':
+                ctx.stats.final_sat -= 1
+            elif st_ == 'unsat':
+                ctx.stats.final_unsat -= 1
+            else:
+                ctx.stats.final_unknown -= 1
+            if st_ != 'sat':
+                unsupported('cannot concretise a symbolic integer (%s)' % st_)
+            val = m.eval(self.t, model_completion=True).as_long()
+            if ctx.branch(self.t == val):
+                return val
+        unsupported('SymInt concretisation exceeded 256 values')
 
     def __index__(self):
         return self.concretize()
@@ -542,6 +554,11 @@ def sym_isinstance(obj, cls):
         if int in targets:
             return True
         return _builtin_isinstance(obj, cls)
+    if type(obj).__name__ == 'P' and type(obj).__module__.endswith('apoly'):
+        targets = cls if _builtin_isinstance(cls, tuple) else (cls,)
+        if float in targets or numbers.Number in targets:
+            return True
+        return _builtin_isinstance(obj, cls)
     return _builtin_isinstance(obj, cls)
 
 
@@ -572,5 +589,7 @@ def to_z3_real(v):
     if _builtin_isinstance(v, C):
         raise TypeError('complex where real expected')
     if hasattr(v, 'to_z3'):
-        return v.to_z3()
+        from . import apoly
+        apoly.register_side(v.symbols())
+        return v.cleared().to_z3() if not v.is_const() else _const(v.const_value())
     return _const(v)
